@@ -365,15 +365,17 @@ where
     // $BWH_HANG_FILE (regenerated from its index) and the process exits with status 3
     use std::sync::atomic::{AtomicU64, AtomicUsize, Ordering};
     let limit_ms: u64 = std::env::var("BWH_CASE_LIMIT_S").ok().and_then(|s| s.parse().ok()).unwrap_or(90u64) * 1000;
-    let t0 = std::time::Instant::now();
+    let ticks = AtomicU64::new(0);
     let cur: Vec<AtomicUsize> = (0..threads).map(|_| AtomicUsize::new(usize::MAX)).collect();
     let since: Vec<AtomicU64> = (0..threads).map(|_| AtomicU64::new(0)).collect();
     let done = std::sync::atomic::AtomicBool::new(false);
     std::thread::scope(|s| {
         s.spawn(|| {
+            // time is counted in the watchdog's own 250 ms ticks, not on the wall clock: when the whole machine stalls (a paused
+            // virtual machine, a burst of other work) the ticks stall with it and no case looks hung
             while !done.load(Ordering::Relaxed) {
                 std::thread::sleep(std::time::Duration::from_millis(250));
-                let now = t0.elapsed().as_millis() as u64;
+                let now = ticks.fetch_add(1, Ordering::Relaxed) * 250 + 250;
                 for t in 0..threads {
                     let i = cur[t].load(Ordering::Relaxed);
                     if i != usize::MAX && now.saturating_sub(since[t].load(Ordering::Relaxed)) > limit_ms {
@@ -390,7 +392,7 @@ where
             }
         });
         let workers: Vec<_> = (0..threads).map(|t| {
-            let (cur, since, next, results, generator) = (&cur, &since, &next, &results, &generator);
+            let (cur, since, next, results, generator, ticks) = (&cur, &since, &next, &results, &generator, &ticks);
             s.spawn(move || {
                 let mut ctx = Ctx::new();
                 loop {
@@ -398,7 +400,7 @@ where
                     if i >= n { break; }
                     let case = generator(&mut ctx, seed, i);
                     let cj = case_json(&mut ctx, &case);
-                    since[t].store(t0.elapsed().as_millis() as u64, Ordering::Relaxed);
+                    since[t].store(ticks.load(Ordering::Relaxed) * 250, Ordering::Relaxed);
                     cur[t].store(i, Ordering::Relaxed);
                     let ij = run_impl(&mut ctx, &case);
                     cur[t].store(usize::MAX, Ordering::Relaxed);
